@@ -352,6 +352,8 @@ var specs = map[string]spec{
 	"sremove":       {1, 1, "self", "r0.remove(a0)", true},
 	"sunion":        {2, 0, "alloc", "r0.union(r1)", true},
 	"sinter":        {2, 0, "alloc", "r0.intersection(r1)", true},
+	"eq":            {1, 1, "val", "r0 == a0", true},
+	"eqwrap":        {1, 1, "val", "[a0] == [a0]", true},
 	"enumerate":     {1, 0, "alloc", "acc := []\nfor k, v := range r0 { acc.append([k, v]) }\nacc", false},
 }
 
@@ -421,6 +423,10 @@ func runOp(route string, name string, refs []object.Object, vals []object.Object
 			return result{err: "type"}
 		}
 		return fromObj(cont.Len())
+	case "eq":
+		return fromObj(r0.Equals(vals[0]))
+	case "eqwrap":
+		return fromObj(object.NewList([]object.Object{vals[0]}).Equals(object.NewList([]object.Object{vals[0]})))
 	case "append", "pop", "remove", "count", "index", "sadd", "sremove":
 		m := map[string]string{"sadd": "add", "sremove": "remove"}[name]
 		if m == "" {
@@ -465,6 +471,30 @@ func runOp(route string, name string, refs []object.Object, vals []object.Object
 		return fromObj(v)
 	}
 	return result{err: "nosuchop"}
+}
+
+// resolveAlias: "@r<k>[.<i>]*" is the store object k itself or, following the indices (taken modulo the length) through
+// nested lists, the very object stored there - not a copy; an index into something that is not a non-empty list ends the path
+func resolveAlias(tok string, store []object.Object) (object.Object, error) {
+	parts := strings.Split(tok[2:], ".")
+	k, err := strconv.Atoi(parts[0])
+	if err != nil || k < 0 || k >= len(store) {
+		return nil, fmt.Errorf("bad alias %q", tok)
+	}
+	cur := store[k]
+	for _, ix := range parts[1:] {
+		i, err := strconv.Atoi(ix)
+		if err != nil {
+			return nil, fmt.Errorf("bad alias %q", tok)
+		}
+		l, ok := cur.(*object.List)
+		if !ok || len(l.Value()) == 0 {
+			break
+		}
+		n := len(l.Value())
+		cur = l.Value()[((i%n)+n)%n]
+	}
+	return cur, nil
 }
 
 func dump(store []object.Object) string {
@@ -537,6 +567,16 @@ func runStoreCase(route string, ops []string) string {
 			}
 			vals := make([]object.Object, sp.vals)
 			for i := 0; i < sp.vals; i++ {
+				if p.pos < len(p.toks) && strings.HasPrefix(p.toks[p.pos], "@r") {
+					// an argument that IS an object of the store: a container itself or a member read back from it
+					v, err := resolveAlias(p.toks[p.pos], store)
+					if err != nil {
+						return "BADCASE " + err.Error()
+					}
+					p.pos++
+					vals[i] = v
+					continue
+				}
 				v, err := p.parseOpt()
 				if err != nil {
 					return "BADCASE " + err.Error()
@@ -777,7 +817,7 @@ func main() {
 		}
 		kind, route, rest := f[0], f[1], f[2]
 		switch kind {
-		case "Q":
+		case "Q", "A":
 			fmt.Fprintln(out, runStoreCase(route, strings.Split(rest, " | ")))
 		case "B":
 			fmt.Fprintln(out, runBytesCase(route, strings.Split(rest, " | ")))
